@@ -132,10 +132,11 @@ class BaseIncrementalFeatureImportance(BaseIncrementalExplainer):
                 This value needs to be added to the top and bottom of the point estimate.
         """
         assert 0 < delta <= 1., f"Delta must be float in the interval of ]0,1] and not {delta}."
+        variances = self.variances  # empty until the first estimate exists
         return {
             feature_name:
                 (1 - self._smoothing_alpha) ** self.seen_samples +
-                (1 / math.sqrt(delta)) * math.sqrt(self.variances[feature_name]) *
+                (1 / math.sqrt(delta)) * math.sqrt(variances.get(feature_name, 0.)) *
                 math.sqrt(self._smoothing_alpha / (2 - self._smoothing_alpha))
             for feature_name in self.feature_names}
 
@@ -143,7 +144,9 @@ class BaseIncrementalFeatureImportance(BaseIncrementalExplainer):
     def _normalize_importance_values(importance_values: dict, mode: str = 'sum') -> dict:
         importance_values_list = list(importance_values.values())
         if mode == 'delta':
-            factor = max(importance_values_list) - min(importance_values_list)
+            factor = 0  # nothing estimated yet
+            if importance_values_list:
+                factor = max(importance_values_list) - min(importance_values_list)
         elif mode == 'sum':
             factor = sum(importance_values_list)
         else:
